@@ -6,6 +6,7 @@ def text_edit(old, new):
         return src.replace(old, new, 1) if old in src else None
     return edit
 MUTANTS = [
+    Mutant('dask_keys_by_index', 'src/pharmpy/workflows/workflow.py', text_edit("        for task in self._g.nodes():\n            assert isinstance(task, Task)\n            ids[task] = f'{task.name}-{uuid.uuid4()}'", "        for i, task in enumerate(self._g.nodes()):\n            assert isinstance(task, Task)\n            ids[task] = f'{task.name}-{i}'"), 'W8', 'keys unique per workflow only'),
     Mutant('rename_after_optimise', 'src/pharmpy/workflows/dispatchers/local_dask/call.py', text_edit("    dsk[unique_name] = dsk.pop('results')\n    dsk_optimized = optimize_task_graph_for_dask_distributed(client, dsk)\n", "    dsk_optimized = optimize_task_graph_for_dask_distributed(client, dsk)\n    dsk_optimized[unique_name] = dsk_optimized.pop('results')\n"), 'W6', 'sink renamed after fusion'),
     Mutant('add_task_conditional_node', 'src/pharmpy/workflows/workflow.py', text_edit("        self._g.add_node(task)\n        if predecessors is not None:", "        if predecessors is None:\n            self._g.add_node(task)\n        if predecessors is not None:"), 'W7', 'node only added without predecessors'),
     Mutant('task_replace_or_default', 'src/pharmpy/workflows/task.py', text_edit('task_input = kwargs.get("task_input", self._task_input)', 'task_input = kwargs.get("task_input") or self._task_input'), 'Y0', 'empty replacement ignored'),
